@@ -563,6 +563,56 @@ theorem addAll_inv (ops : List AddOp) : ∀ (s : Sorter), s.Inv → (∀ o ∈ o
     obtain ⟨h1, h2, h3, h4⟩ := add_static s o.name o.after o.before
     exact valid_congr h1 h2 h3 h4 o' (hv o' (List.mem_cons_of_mem _ ho'))
 
+/-! ### histories with the public `remove` and interleaved `sorted()` calls -/
+
+/-- domain of a history: additions are valid, anything may be removed (also names that are not there) or asked -/
+def HOp.Valid (s : Sorter) : HOp → Prop
+  | .add o => o.Valid s
+  | _ => True
+
+theorem step_static (s : Sorter) (op : HOp) :
+    (op.step s).first = s.first ∧ (op.step s).last = s.last ∧
+    (op.step s).defAfter = s.defAfter ∧ (op.step s).defBefore = s.defBefore := by
+  cases op with
+  | add o => exact add_static s o.name o.after o.before
+  | remove n =>
+    simp only [HOp.step, Sorter.removeOp]
+    split
+    · obtain ⟨_, g2, g3, g4, g5, _⟩ := remove_fields s n
+      exact ⟨g2, g3, g4, g5⟩
+    · exact ⟨rfl, rfl, rfl, rfl⟩
+  | query => exact ⟨rfl, rfl, rfl, rfl⟩
+
+theorem step_inv (s : Sorter) (inv : s.Inv) (op : HOp) (hv : op.Valid s) : (op.step s).Inv := by
+  cases op with
+  | add o => exact add_inv s inv o hv
+  | remove n =>
+    simp only [HOp.step, Sorter.removeOp]
+    split
+    · rename_i h
+      exact (remove_inv s inv n (by simpa using h)).1
+    · exact inv
+  | query => exact inv
+
+theorem hop_valid_congr {s t : Sorter} (h1 : t.first = s.first) (h2 : t.last = s.last)
+    (h3 : t.defAfter = s.defAfter) (h4 : t.defBefore = s.defBefore) (op : HOp) (hv : op.Valid s) : op.Valid t := by
+  cases op with
+  | add o => exact valid_congr h1 h2 h3 h4 o hv
+  | remove n => trivial
+  | query => trivial
+
+theorem history_inv (ops : List HOp) :
+    ∀ (s : Sorter), s.Inv → (∀ op ∈ ops, op.Valid s) → (ops.foldl HOp.step s).Inv := by
+  induction ops with
+  | nil => intro s inv _; exact inv
+  | cons op ops ih =>
+    intro s inv hv
+    simp only [List.foldl_cons]
+    apply ih _ (step_inv s inv op (hv op List.mem_cons_self))
+    intro op' ho'
+    obtain ⟨h1, h2, h3, h4⟩ := step_static s op
+    exact hop_valid_congr h1 h2 h3 h4 op' (hv op' (List.mem_cons_of_mem _ ho'))
+
 /-- a freshly constructed sorter -/
 def Sorter.empty (first last : Nat) (defBefore defAfter : Option (List Nat)) : Sorter :=
   { defBefore := defBefore, defAfter := defAfter, first := first, last := last }
